@@ -292,3 +292,21 @@ def cons_alphabet(kind, strength="mild", gamma=1.4, g=9.81):
 def field_from_letters(model, mesh, alphabet, idx, t=0.0):
     data = [np.array([alphabet[i][k] for i in idx], dtype=float) for k in range(model.neq)]
     return field.fdata(model, mesh, data, t=t)
+
+
+def pattern_assignments(n, nlet=3):
+    """larger meshes are not enumerated over all assignments but over all cyclic translates of three base patterns (impulse, step,
+    repeating 0,1,..,nlet-1): every cell meets every local configuration of the patterns, at every distance from the ends"""
+    base = [[1] + [0] * (n - 1), [1] * (n // 2) + [0] * (n - n // 2), [i % nlet for i in range(n)], [(i * i) % nlet for i in range(n)]]
+    out = []
+    seen = set()
+    for b in base:
+        for k in range(n):
+            t = tuple(b[-k:] + b[:-k]) if k else tuple(b)
+            if t not in seen:
+                seen.add(t)
+                out.append(t)
+    return out
+
+
+SIZES = [6, 7, 8, 13, 16, 33]
